@@ -246,6 +246,21 @@ class VC:
                 return r2, 'z3:qfnra-nlsat', self._model_summary(s2.model()), None
         except z3.Z3Exception:
             pass
+        # the same z3 configuration again with a medium budget: an obligation that normally takes well under the short budget can miss it
+        # when the machine is loaded (the short stages are wall-clock limits); retried before the slower second opinions
+        mid_ms = min(15000, self.timeout_ms)
+        if mid_ms > quick_ms:
+            s, r = z3_try(sl, mid_ms)
+            if r == z3.unsat:
+                return r, 'z3', None, None
+            if r == z3.sat and full_is_slice:
+                return r, 'z3', self._model_summary(s.model()), None
+            if not full_is_slice:
+                s, r = z3_try(hyps, mid_ms)
+                if r == z3.unsat:
+                    return r, 'z3', None, None
+                if r == z3.sat:
+                    return r, 'z3', self._model_summary(s.model()), None
         # cvc5 second opinion (first on the slice for unsat, then on the full set)
         for hs, is_full in ((sl, full_is_slice), (hyps, True)):
             if is_full and hs is sl and not full_is_slice:
